@@ -112,6 +112,43 @@ MUTS = {
  'M12_seeded_variant_hidden_in_setter': ('katdal/visdatav4.py',
    "        self._flags_select = flagmask\n",
    "        self._flags_select = flagmask\n        if getattr(self, '_corrections', None) is not None:\n            if not hasattr(self, '_cal_flags'):\n                self._cal_flags = self._corrected.flags\n            self._corrected.flags = self._cal_flags if flagmask & 128 else self.source.data.flags\n"),
+ # round 4: argument parsing, marking loop, flag tables of the file
+ 'R1_v3_handler_around_whole_loop (seeded C16-9)': ('katdal/h5datav3.py',
+   '        for name in names:\n            try:\n                selection[known_flags.index(name)] = 1\n            except ValueError:\n                logger.warning("%r is not a legitimate flag type for this file, "\n                               "supported ones are %s", name, known_flags)\n',
+   '        try:\n            for name in names:\n                selection[known_flags.index(name)] = 1\n        except ValueError:\n            logger.warning("%r is not a legitimate flag type for this file, "\n                           "supported ones are %s", name, known_flags)\n'),
+ 'R2_v2_handler_around_whole_loop': ('katdal/h5datav2.py',
+   '        for name in names:\n            try:\n                selection[known_flags.index(name)] = 1\n            except ValueError:\n                logger.warning("%r is not a legitimate flag type for this file, "\n                               "supported ones are %s", name, known_flags)\n',
+   '        try:\n            for name in names:\n                selection[known_flags.index(name)] = 1\n        except ValueError:\n            logger.warning("%r is not a legitimate flag type for this file, "\n                           "supported ones are %s", name, known_flags)\n'),
+ 'R3_v4_break_after_unknown_name': ('katdal/visdatav4.py',
+   '            except ValueError:\n                logger.warning("%r is not a legitimate flag type, "\n                               "supported ones are %s", name, FLAG_NAMES)\n',
+   '            except ValueError:\n                logger.warning("%r is not a legitimate flag type, "\n                               "supported ones are %s", name, FLAG_NAMES)\n                break\n'),
+ 'R4_split_with_regex_ends_not_stripped (seeded C16-10)': ('katdal/dataset.py',
+   "            return [name.strip() for name in names.split(',')]",
+   "            return __import__('re').split(r'\\s*,\\s*', names)"),
+ 'R5_fields_only_lstripped': ('katdal/dataset.py',
+   "            return [name.strip() for name in names.split(',')]",
+   "            return [name.lstrip() for name in names.split(',')]"),
+ 'R6_split_on_comma_blank': ('katdal/dataset.py',
+   "            return [name.strip() for name in names.split(',')]",
+   "            return [name.strip() for name in names.split(', ')]"),
+ 'R7_v2_setter_reads_default_names_not_the_file_table': ('katdal/h5datav2.py',
+   '        names = _selection_to_list(names, all=known_flags)\n        # Create boolean list for desired flags',
+   '        known_flags = list(FLAG_NAMES)\n        names = _selection_to_list(names, all=known_flags)\n        # Create boolean list for desired flags'),
+ 'R8_v3_getter_names_from_default_table': ('katdal/h5datav3.py',
+   '        return [name for name, bit in zip(known_flags, selection) if bit]',
+   '        return [name for name, bit in zip(FLAG_NAMES, selection) if bit]'),
+ 'R9_v2_table_not_decoded (C16-F1 on v2)': ('katdal/h5datav2.py',
+   "        self._flags_description = to_str(markup_group['flags_description'][:]) \\\n",
+   "        self._flags_description = markup_group['flags_description'][:] \\\n"),
+ 'R10_strip_only_blanks': ('katdal/dataset.py',
+   "            return [name.strip() for name in names.split(',')]",
+   "            return [name.strip(' ') for name in names.split(',')]"),
+ 'R11_empty_fields_dropped_silently': ('katdal/dataset.py',
+   "            return [name.strip() for name in names.split(',')]",
+   "            return [name.strip() for name in names.split(',') if name.strip()]"),
+ 'R12_padded_group_name_accepted_but_case_folded': ('katdal/dataset.py',
+   '        elif names in groups:\n            return list(groups[names])',
+   '        elif names.lower() in groups:\n            return list(groups[names.lower()])'),
 }
 only = sys.argv[1:]
 env = dict(os.environ, VERIF_REPO=REPO)
@@ -130,8 +167,9 @@ for name, (rel, old, new) in MUTS.items():
             d = json.load(open(m.group(1)))
             sigs.append(d['signature'] + (' [NO INPUT]' if m.group(2) else ''))
         broken = [l[:150] for l in out.splitlines() if l.startswith('BROKEN')]
-        print('%s: exit=%d\n   broken=%s\n   sigs(%d)=%s' % (name, r.returncode, broken, len(sigs), sigs[:4]))
+        print('%s: exit=%d\n   broken=%s\n   sigs(%d)=%s' % (name, r.returncode, broken, len(sigs), sigs[:4]), flush=True)
     finally:
         subprocess.run(['git', 'checkout', '--', '.'], cwd=REPO)
-        r = subprocess.run(['./check', 'C16'], cwd=VERIF, env=env, capture_output=True, text=True)
-        print('   clean after: exit=%d' % r.returncode)
+        if not os.environ.get('C16_MUT_NOCLEAN'):
+            r = subprocess.run(['./check', 'C16'], cwd=VERIF, env=env, capture_output=True, text=True)
+            print('   clean after: exit=%d' % r.returncode)
